@@ -462,6 +462,20 @@ static void buffer_push_impl(JanetBuffer *buffer, Janet *argv, int32_t argc_offs
     }
 }
 
+/* Overwrite the bytes of buffer from index on with the contents of src, growing buffer as needed.
+ * The new bytes are built in src first so that buffer is untouched if building them raises. */
+static void buffer_overwrite_at(JanetBuffer *buffer, int32_t index, const JanetBuffer *src) {
+    if (src->count > INT32_MAX - index) {
+        janet_panic("buffer overflow");
+    }
+    int32_t end = index + src->count;
+    janet_buffer_ensure(buffer, end, 2);
+    safe_memcpy(buffer->data + index, src->data, src->count);
+    if (end > buffer->count) {
+        buffer->count = end;
+    }
+}
+
 JANET_CORE_FN(cfun_buffer_push_at,
               "(buffer/push-at buffer index & xs)",
               "Same as buffer/push, but copies the new data into the buffer "
@@ -473,11 +487,9 @@ JANET_CORE_FN(cfun_buffer_push_at,
     if (index < 0 || index > old_count) {
         janet_panicf("index out of range [0, %d)", old_count);
     }
-    buffer->count = index;
-    buffer_push_impl(buffer, argv, 2, argc);
-    if (buffer->count < old_count) {
-        buffer->count = old_count;
-    }
+    JanetBuffer *scratch = janet_buffer(0);
+    buffer_push_impl(scratch, argv, 2, argc);
+    buffer_overwrite_at(buffer, index, scratch);
     return argv[0];
 }
 
@@ -657,13 +669,10 @@ JANET_CORE_FN(cfun_buffer_format_at,
         at += buffer->count + 1;
     }
     if (at > buffer->count || at < 0) janet_panicf("expected index at to be in range [0, %d), got %d", buffer->count, at);
-    int32_t oldcount = buffer->count;
-    buffer->count = at;
     const char *strfrmt = (const char *) janet_getstring(argv, 2);
-    janet_buffer_format(buffer, strfrmt, 2, argc, argv);
-    if (buffer->count < oldcount) {
-        buffer->count = oldcount;
-    }
+    JanetBuffer *scratch = janet_buffer(0);
+    janet_buffer_format(scratch, strfrmt, 2, argc, argv);
+    buffer_overwrite_at(buffer, at, scratch);
     return argv[0];
 }
 
